@@ -20,6 +20,9 @@ structure St where
   ask : Option (Nat × Path) := none
   /-- per instance, parallel to its `snaps`: is the snapshot a held scan iterator -/
   scans : List (List Bool) := []
+  /-- per instance: tables pinned for good by a held scan that could not be finished because one of the files it
+  reads was already gone (a recorded loss); an abandoned scan never lets go of its tables (`mergesort.Merge`, D62) -/
+  stuck : List (Nat × List Path) := []
 
 def sortStr (xs : List String) : List String := (xs.toArray.qsort (· < ·)).toList
 
@@ -161,8 +164,9 @@ def gcInst (st : St) (need : List File) (acc : GcAcc) (i : Nat) : GcAcc :=
   match acc.s.insts[i]? with
   | none => acc
   | some x =>
-    let cs := x.created.filter (fun u => x.unreachable u)
-    let ls := (x.loaded.filter (fun t => x.unreachable t.uri && !x.created.contains t.uri)).map (·.uri)
+    let pinned := fun (u : Path) => st.stuck.any (fun p => p.1 == i && p.2.contains u)
+    let cs := x.created.filter (fun u => x.unreachable u && !pinned u)
+    let ls := (x.loaded.filter (fun t => x.unreachable t.uri && !x.created.contains t.uri && !pinned t.uri)).map (·.uri)
     let acc := cs.foldl (fun a u => collectOne st need a i u true) acc
     ls.foldl (fun a u => collectOne st need a i u false) acc
 
@@ -186,6 +190,22 @@ def refused (st : St) (gone : List File) : String :=
   let kf := if ids.isEmpty || ids.any (· == "") then ""
     else if ids.any (· == "D25") then "D25" else ids.headD ""
   withSpec "files-missing" "ok" kf
+
+/-- the held scans of instance `i` that cannot be finished when the instance is dropped: a file they read is gone -/
+def stuckScans (st : St) (i : Nat) : List (Nat × List Path) :=
+  match st.s.insts[i]? with
+  | none => []
+  | some x =>
+    let flags := st.scans.getD i []
+    (x.snaps.zip (flags ++ List.replicate (x.snaps.length - flags.length) false)).filterMap fun (sn, isScan) =>
+      let us := uris sn
+      if isScan && us.any (fun u => !st.s.files.contains (.sst u)) then some (i, us) else none
+
+/-- a `NeedsTable` call held between its reads ends with the instance it was made on -/
+def dropAsk (st : St) (i : Nat) : Option (Nat × Path) :=
+  match st.ask with
+  | some (j, u) => if j == i then none else some (j, u)
+  | none => none
 
 /-- `open`: a new instance, empty or restored from checkpoint handles; the model step, then the commits of the WAL
 replay as read from the implementation -/
@@ -248,7 +268,7 @@ def step (st : St) (ws : List String) : St × String :=
     match st.s.insts[i]?, Files.step st.s (.release i) with
     | some x, some s1 =>
       let showR := fun (r : KGRange) => toString r.start ++ "-" ++ toString r.stop
-      let r := doOpen { st with s := s1 } (showR x.range)
+      let r := doOpen { st with s := s1, ask := dropAsk st i, stuck := stuckScans st i ++ st.stuck } (showR x.range)
         ["gen=" ++ field rest "gen", "nbrs=" ++ joinC (x.nbrs.map showR), "from=" ++ field rest "from",
          "dir=" ++ toString x.dir] hint
       if r.2.startsWith "ok " then r else (st, r.2)
@@ -337,17 +357,18 @@ def step (st : St) (ws : List String) : St × String :=
     match Files.step st.s (.unsnap (natOr i) (natOr k)) with
     | none => (st, "not-alive")
     | some s' =>
-      ({ st with s := s', scans := st.scans.set (natOr i) ((st.scans.getD (natOr i) []).eraseIdx (natOr k)) },
-        if isScan && pinned.any (fun u => !st.s.files.contains (.sst u)) then
-          refused st ((pinned.map File.sst).filter (fun f => !st.s.files.contains f)) else "ok")
+      let isStuck := isScan && pinned.any (fun u => !st.s.files.contains (.sst u))
+      ({ st with s := s', scans := st.scans.set (natOr i) ((st.scans.getD (natOr i) []).eraseIdx (natOr k)),
+                 stuck := if isStuck then (natOr i, pinned) :: st.stuck else st.stuck },
+        if isStuck then refused st ((pinned.map File.sst).filter (fun f => !st.s.files.contains f)) else "ok")
   | ["crash", i] =>
     match Files.step st.s (.crash (natOr i)) with
     | none => (st, "not-alive")
-    | some s' => ({ st with s := s' }, "ok")
+    | some s' => ({ st with s := s', ask := dropAsk st (natOr i) }, "ok")
   | ["release", i] =>
     match Files.step st.s (.release (natOr i)) with
     | none => (st, "not-alive")
-    | some s' => ({ st with s := s' }, "ok")
+    | some s' => ({ st with s := s', ask := dropAsk st (natOr i), stuck := stuckScans st (natOr i) ++ st.stuck }, "ok")
   | ["gate", i] => (st, if aliveAt st (natOr i) then "ok" else "not-alive")
   | "writehold" :: i :: _ =>
     -- the instance writes on while one of its compactions is held; it is dropped right afterwards, and what it
